@@ -331,6 +331,9 @@ def run_traced(store, args, inject=None, timeout=60):
     try:
         r = vlib.run(cmd, timeout=timeout)
         out = r.stdout
+        if "RESULT " not in out and r.returncode in (0, 10):
+            # the line itself was lost (an injected write error can hit it): the exit status says the same
+            out += "\nRESULT %s (from the exit status)" % ("ok" if r.returncode == 0 else "err")
     except subprocess.TimeoutExpired as e:
         out = "RESULT timeout"
     calls = parse_strace(tr) if os.path.exists(tr) else []
